@@ -8,6 +8,9 @@
 (* A rule list is a non-empty sequence of elements; an element is          *)
 (*   [k |-> "B"]                    a basic rule (identified by its path)  *)
 (*   [k |-> "AND"|"OR", sub |-> l]  a composite pointing at another list   *)
+(* A policy object may be cloned (KSI_Policy_clone): the clone IS the same     *)
+(* policy -- the same rule list and the same fallback chain; the replay       *)
+(* verifies half of the fallback-carrying chains through a clone of the head.  *)
 (* A basic rule is identified by <<policy index, path>>; its outcome is    *)
 (* chosen by the environment at the moment the interpreter invokes it.     *)
 (***************************************************************************)
